@@ -266,6 +266,35 @@ func C19(c Ctx) *report.Report {
 			msgs = append(msgs, m)
 			nodes = append(nodes, nd)
 		}
+		signer := user
+		if rng.Intn(10) == 0 {
+			// one transaction that first creates a validator and then delegates to it (directly, or both inside one authz
+			// MsgExec): the rules are evaluated on the state before the transaction, where the validator does not exist yet, so
+			// the delegation has no stake distribution to be checked against and the transaction must be refused
+			op := chain.NewAccount(fmt.Sprintf("c19operator%d-%d", c.Seed, i))
+			tot0 := total()
+			x := new(big.Int).Div(tot0, big.NewInt(int64(4+rng.Intn(40)))) // 2.4% .. 20% of the stake after the delegation
+			fund := banktypes.NewMsgSend(e.Users[2].Addr, op.Addr, sdk.NewCoins(sdk.NewCoin(bond, sdk.NewIntFromBigInt(new(big.Int).Add(x, big.NewInt(5000000)))), sdk.NewCoin("rowan", sdk.NewIntFromBigInt(chain.E(20)))).Sort())
+			mustOK(e.Deliver(sdk.NewCoins(sdk.NewCoin("rowan", sdk.NewIntFromBigInt(chain.E(18)))), 5_000_000, []chain.Account{e.Users[2]}, fund), "fund operator")
+			pk := ed25519.GenPrivKeyFromSecret([]byte(fmt.Sprintf("c19cons-op%d-%d", c.Seed, i))).PubKey()
+			rate := sdk.NewDecWithPrec(int64(50+rng.Intn(11)), 3)
+			cv, err := stakingtypes.NewMsgCreateValidator(sdk.ValAddress(op.Addr), pk, sdk.NewCoin(bond, sdk.NewInt(1000000)), stakingtypes.NewDescription("n", "", "", "", ""),
+				stakingtypes.NewCommissionRates(rate, sdk.NewDecWithPrec(20, 2), sdk.NewDecWithPrec(1, 2)), sdk.OneInt())
+			if err != nil {
+				panic(err)
+			}
+			dl := stakingtypes.NewMsgDelegate(op.Addr, sdk.ValAddress(op.Addr), sdk.NewCoin(bond, sdk.NewIntFromBigInt(x)))
+			n1 := anteNode{URL: sdk.MsgTypeURL(cv), Kind: 1, A: new(big.Int).Set(rate.BigInt())}
+			n2 := anteNode{URL: sdk.MsgTypeURL(dl), Kind: 3, Found: false, A: new(big.Int), B: x}
+			if rng.Intn(2) == 0 {
+				ex := authz.NewMsgExec(op.Addr, []sdk.Msg{cv, dl})
+				msgs, nodes = []sdk.Msg{&ex}, []anteNode{{Exec: true, Inner: []anteNode{n1, n2}}}
+			} else {
+				msgs, nodes = []sdk.Msg{cv, dl}, []anteNode{n1, n2}
+			}
+			signer = op
+			rep.Count("tx.create-validator-then-delegate-to-it")
+		}
 		// fee around the floors
 		floor := new(big.Int)
 		for _, nd := range nodes {
@@ -292,7 +321,7 @@ func C19(c Ctx) *report.Report {
 			fee = big.NewInt(1)
 		}
 		tot := total()
-		res := e.Deliver(sdk.NewCoins(sdk.NewCoin("rowan", sdk.NewIntFromBigInt(fee))), 5_000_000, []chain.Account{user}, msgs...)
+		res := e.Deliver(sdk.NewCoins(sdk.NewCoin("rowan", sdk.NewIntFromBigInt(fee))), 5_000_000, []chain.Account{signer}, msgs...)
 		executed := res.Code == 0
 		rejectedByRules := res.Code != 0 && !strings.Contains(res.Log, "failed to execute message") && (strings.Contains(res.Log, "tx fee is too low") || strings.Contains(res.Log, "unsupported fee asset") ||
 			strings.Contains(res.Log, "cannot be lower than minimum") || strings.Contains(res.Log, "voting power") || strings.Contains(res.Log, "validator does not exist"))
